@@ -2,7 +2,7 @@
 From Coq Require Import ZArith List Bool Lia.
 Import ListNotations.
 Require Import PV.Model.GraphAlg PV.Proofs.GraphSpec PV.Proofs.GraphBounded PV.Proofs.MisProofs.
-Require Import PV.Proofs.ParMisProofs PV.Proofs.ParMisTerm PV.Proofs.CmisProofs PV.Proofs.CompProofs.
+Require Import PV.Proofs.ParMisProofs PV.Proofs.ParMisTerm PV.Proofs.CmisProofs PV.Proofs.CompProofs PV.Proofs.BfsProofs.
 
 (* serial maximal independent set: for EVERY symmetric graph in CSR form, of any size, and any
    three distinct codes: every vertex is decided, the set is independent and maximal *)
@@ -90,6 +90,26 @@ Theorem C18_connected_components_correct : forall (N : nat) (Ap Aj : list Z),
     (forall i j, (0 <= i < Z.of_nat N)%Z -> (0 <= j < Z.of_nat N)%Z -> (get comp i = get comp j <-> conn N Ap Aj i j)).
 Proof. exact connected_components_correct. Qed.
 Print Assumptions C18_connected_components_correct.
+
+(* breadth_first_search, EVERY graph with column indices in range (symmetric or NOT), any size, any seed: the
+   model returns within its fuel; level[j] is the hop distance from the seed ([dist L j]: a walk of L edges from
+   the seed ends in j and no shorter one does), and it stays -1 exactly for the vertices no walk reaches;
+   order[0..N) lists the reached vertices, each once *)
+Theorem C18_breadth_first_search_correct : forall (N : nat) (Ap Aj : list Z),
+  (forall i, (0 <= i < Z.of_nat N)%Z -> forall j, In j (nbrs Ap Aj i) -> (0 <= j < Z.of_nat N)%Z) ->
+  forall seed, (0 <= seed < Z.of_nat N)%Z -> forall order0, length order0 = N ->
+  exists order level Nn, bfs (Z.of_nat N) Ap Aj seed order0 = Some (order, level, Nn) /\
+    length order = N /\ length level = N /\ (0 <= Nn <= Z.of_nat N)%Z /\
+    (forall j, (0 <= j < Z.of_nat N)%Z -> get level j <> (-1)%Z -> dist Ap Aj seed (get level j) j) /\
+    (forall j, (0 <= j < Z.of_nat N)%Z -> get level j = (-1)%Z -> forall L, ~ reach Ap Aj seed L j) /\
+    NoDup (firstn (Z.to_nat Nn) order) /\
+    (forall k, In k (firstn (Z.to_nat Nn) order) <-> exists L, reach Ap Aj seed L k).
+Proof. exact bfs_correct. Qed.
+Print Assumptions C18_breadth_first_search_correct.
+(* non-vacuity: on the directed path 0 -> 1 -> 2 plus the isolated vertex 3 the hypotheses hold and the model
+   returns levels 0,1,2,-1 *)
+Example C18_bfs_example : bfs 4 [0;1;2;2;2]%Z [1;2]%Z 0 [0;0;0;0]%Z = Some ([0;1;2;0]%Z, [0;1;2;-1]%Z, 3%Z).
+Proof. vm_compute. reflexivity. Qed.
 
 (* bounded theorems: ALL symmetric graphs on <= 4 vertices (with and without stored diagonal),
    all weight vectors over {0,1,2} (ties included), all seeds / centre sets; the models never
